@@ -15,7 +15,7 @@ from twisted.web import _newclient as nc
 from twisted.web.http_headers import Headers
 from twisted.web.iweb import UNKNOWN_LENGTH, IBodyProducer
 
-HEADLINE = "TwistedProps.C23.request_deferred_fires_once_partial"
+HEADLINE = "TwistedProps.C23.request_deferred_fires_once"
 RULE = ("event scripts for one request on HTTP11ClientProtocol: response streams generated from a grammar (0..2 interim "
         "1xx responses; status lines with/without phrase, HTTP/1.0/1.1/odd versions; CRLF or bare-LF line ends; obs-fold "
         "continuation lines; header names in mixed case; framing by Content-Length (single, repeated, comma list, "
@@ -48,12 +48,16 @@ TRUSTED = ["the generator's wire map (offset of every body byte, head length, to
 MANIFEST = {
     "text": "Lean theorems (TwistedProps/C23.lean) over a transcription of HTTPParser/HTTPClientParser (LineReceiver loop, "
             "status line, headers, 1xx reset, HEAD/204/304, _contentLength, TE lookup), Response's body state machine and "
-            "HTTP11ClientProtocol's states. PARTIAL: proved for unbounded inputs are (a) exactly-once firing of the request "
-            "Deferred for every script of control events (loss, abort, cancel, request written/failed, deliverBody) on a "
-            "connection that delivered no response byte, and (b) the Response body state machine (exact body, exactly one "
-            "connectionLost with the parser's reason, in both orders of deliverBody and end of body). The preservation of "
-            "the control invariant along the dataReceived path is not proved; there the claim rests on the differential "
-            "tie and the wire-map oracle (every truncation point x segmentation on the real code).",
+            "HTTP11ClientProtocol's states. PROVED for unbounded inputs: (a) request_deferred_fires_once - the request "
+            "Deferred fires exactly once for EVERY event script containing the loss of the connection: deliveries of "
+            "arbitrary bytes (any response, any segmentation, any truncation point) interleaved with abort, cancel, request "
+            "written/failed, deliverBody (invariant over a control projection of the state, preserved by every event incl. "
+            "the whole dataReceived path lrLoop/lineReceived/allHeadersReceived/rawDataReceived/_finished/_finishResponse); "
+            "at most once without the loss; (b) the Response body state machine (exact body, exactly one connectionLost "
+            "with the parser's reason, in both orders of deliverBody and end of body). PARTIAL: which value the single "
+            "firing has (response iff the head is complete) and the link from the wire bytes through the C22 decoders to "
+            "the arguments of (b) are not proved; there the claim rests on the differential tie and the wire-map oracle "
+            "(every truncation point x segmentation on the real code).",
     "note": "trusts Lean kernel, the hand-written model (differentially tied), CPython bytes.split/strip/lower/int",
     "technique": "Lean 4 proof (state-machine invariants over event scripts) + differential tie + wire-map oracle",
     "design_ref": "DESIGN.md §7 C23",
